@@ -210,7 +210,7 @@ func TestWorker(t *testing.T) {
 			if nviol > 0 {
 				bw.Flush()
 			}
-			if nviol >= maxViol {
+			if nviol >= maxViol || r.Tainted {
 				break
 			}
 		}
